@@ -1094,6 +1094,9 @@ PLAN_C04 = {
              dict(what="the same shapes over TWO tables with the same columns (identical steps over different sources): every 5-call "
                        "behaviour that ends with one open pipeline, <= 1 row", fams=["extend", "wextend", "stack", "binary"], rows=1, steps=5,
                   level=0, one_in=6, emitsel="fork", timeout=600, tabcols="MCB2_TabCols", colvals="MCB_ColVals"),
+             dict(what="an ordering with a limit inside one branch of a fork (dup | swap, order_rows by o / z / w with limit 0 | 1, "
+                       "concat | inner join): every 4-call behaviour that ends with one open pipeline, <= 1 row",
+                  fams=["oo", "extend", "stack", "binary"], rows=1, steps=4, level=0, one_in=1, emitsel="fork", timeout=600, **TB),
              dict(what="all 2-call extend / windowed extend sequences, <= 1 row (sampled)", fams=["extend", "extend2", "wextend"], rows=1,
                   steps=2, level=1, one_in=300, timeout=300, tier=("thorough",), **TB)],
     "sim": dict(what="random pipelines of 4 calls biased to shared sub-pipelines and consecutive extends",
@@ -1258,9 +1261,55 @@ PLAN_C11 = {
 }
 
 
+def tables_c11(vd, stats, tier):
+    """leaves: two table descriptions that compare equal must behave identically (same result columns, same SQL)"""
+    import pandas
+    from data_algebra.data_ops import TableDescription
+    d = pandas.DataFrame({"x": [1, 2], "y": [3, 4], "z": [5, 6]})
+    forms = {"fewer columns": (["x", "y", "z"], ["x", "y"]), "other column order": (["x", "y", "z"], ["z", "x", "y"]),
+             "same description": (["x", "y"], ["x", "y"])}
+    n = 0
+    for form, (ca, cb) in sorted(forms.items()):
+        for wrap in ("bare", "select_rows"):
+            a, b = TableDescription(table_name="d", column_names=ca), TableDescription(table_name="d", column_names=cb)
+            if wrap == "select_rows":
+                a, b = a.select_rows("x > 0"), b.select_rows("x > 0")
+            n += 1
+            eq = (a == b)
+            if eq != (b == a) or eq == (a != b):
+                vd.violation({"kind": "table-eq", "form": form, "wrap": wrap, "what": "== / != inconsistent"}, tag="table-eq:inconsistent")
+                continue
+            if form == "same description" and not eq:
+                vd.violation({"kind": "table-eq", "form": form, "wrap": wrap, "what": "identically built descriptions compare unequal"},
+                             tag="table-eq:reflexive")
+            if not eq:
+                stats["table_pairs_unequal"] += 1
+                continue
+            stats["table_pairs_equal"] += 1
+            ra, rb = list(a.transform(d).columns), list(b.transform(d).columns)
+            sa, sb = _models()[("sqlite", True)].to_sql(a), _models()[("sqlite", True)].to_sql(b)
+            if ra != rb or sa != sb:
+                fid = None
+                for f in vd.findings.get("findings", []):
+                    if "C11" in f.get("properties", []) and f.get("kind") == "table-eq" and f["form"] == form and f["wrap"] == wrap:
+                        fid = f["id"]
+                if fid:
+                    vd.note_known(fid)
+                    continue
+                vd.violation({"kind": "table-eq", "form": form, "wrap": wrap, "columns_a": ca, "columns_b": cb,
+                              "result_columns_a": ra, "result_columns_b": rb, "sql_equal": sa == sb,
+                              "what": "a == b but the results / SQL differ"}, tag="table-eq:" + form)
+    return {"table_description_pairs": n}
+
+
 def check_C11(tier, replay=None):
     from . import rec_props
-    return generic_plan("C11", tier, PLAN_C11, w_c11, replay, post=rec_props.records_c11)
+
+    def post(vd, stats, tier_):
+        out = rec_props.records_c11(vd, stats, tier_)
+        out.update(tables_c11(vd, stats, tier_))
+        return out
+    return generic_plan("C11", tier, PLAN_C11, w_c11, replay, post=post)
 
 
 CHECKS["C11"] = check_C11
